@@ -974,6 +974,7 @@ func (fr *Frame) applyHavoc(st, base *State, eff *loopEffects) {
 		st.layer = nil
 		u.epochAlloc[st.epoch] = st.alloc
 		fr.preserveLocalsExcept(base, st, eff)
+		fr.preservePrivateArrays(base, st, eff.heapKeys)
 		u.note("loop/callback in %s contains a call with unknown effects: all heaps havocked at the loop head", fr.key)
 	} else {
 		for _, k := range sortedKeys(eff.heapKeys) {
@@ -1052,9 +1053,17 @@ func (fr *Frame) execBlockBodyInto(b *ssa.BasicBlock, st *State, edges edgeMap) 
 func (fr *Frame) execPanic(x *ssa.Panic, st *State) {
 	u := fr.u
 	// a panic is a failed obligation unless the contract's "panics iff" covers it
+	// (a panic inside a closure that the root function runs in context leaves the root function as well)
+	root := fr
+	for root != nil && !root.isRoot {
+		root = root.parent
+	}
 	c := fr.contract
-	if c != nil && c.PanicsIff != nil && fr.isRoot {
-		t, err := fr.evalBool(c.PanicsIff.E, st, fr.entry)
+	if root != nil && root != fr && root.contract != nil && root.contract.PanicsIff != nil {
+		c = root.contract
+	}
+	if c != nil && c.PanicsIff != nil && root != nil {
+		t, err := root.evalBool(c.PanicsIff.E, st, root.entry)
 		if err == nil {
 			u.oblige(fr, "panic-allowed", x.Pos(), "panics iff "+c.PanicsIff.Text, st.pc, t, false)
 			return
